@@ -19,7 +19,7 @@ Open Scope N_scope.
 
 Theorem C15gen_appendString : forall v data fuel,
   (Z.of_nat (length v) < 4611686018427387904)%Z -> (length v < fuel)%nat ->
-  appendString fuel data v = Ok (data ++ append_string v).
+  JSONOutput_appendString fuel data v = Ok (data ++ append_string v).
 Proof. exact gen_appendString. Qed.
 Print Assumptions C15gen_appendString.
 
@@ -28,7 +28,7 @@ Print Assumptions C15gen_appendString.
     reads back to the string (the automaton [drun] accepts exactly JSON's escapes) *)
 Theorem C15code_string_literal : forall v fuel, Forall (fun c => c < 256) v ->
   (Z.of_nat (length v) < 4611686018427387904)%Z -> (length v < fuel)%nat ->
-  exists body, appendString fuel [] v = Ok ([34] ++ body ++ [34]) /\ drun DNormal body = Some (DNormal, v).
+  exists body, JSONOutput_appendString fuel [] v = Ok ([34] ++ body ++ [34]) /\ drun DNormal body = Some (DNormal, v).
 Proof.
   intros v fuel Hb Hl Hf. exists (flat_map escape_byte v). split.
   - rewrite (gen_appendString v [] fuel Hl Hf). reflexivity.
@@ -82,5 +82,5 @@ Example C15gen_run_ex :
         32;32;34;34;58;32;34;92;34;92;110;34;10; 125;10].
 Proof. vm_compute. reflexivity. Qed.
 
-Example C15gen_ex : appendString 9 [58] [97; 34; 10; 1; 255] = Ok [58; 34; 97; 92; 34; 92; 110; 92; 117; 48; 48; 48; 49; 255; 34].
+Example C15gen_ex : JSONOutput_appendString 9 [58] [97; 34; 10; 1; 255] = Ok [58; 34; 97; 92; 34; 92; 110; 92; 117; 48; 48; 48; 49; 255; 34].
 Proof. vm_compute. reflexivity. Qed.
